@@ -1118,6 +1118,33 @@ pub fn gen_c09(thorough: bool, seed: u64) -> Vec<Episode> {
         }
         eps.push(Episode { n, tys: tys_for(n), ops });
     }
+    // characters outside ASCII that case mapping, width folding or digit classification could turn into hex digits:
+    // ligatures (U+FB00 'ff' upper-cases to "FF"), fullwidth digits and letters, other decimal digits, Kelvin / long s;
+    // placed so that the byte length, the character count or the length after case mapping equals the expected width
+    {
+        let specials: [(char, usize); 12] = [('\u{fb00}', 2), ('\u{fb01}', 2), ('\u{fb03}', 3), ('\u{ff11}', 1), ('\u{ff21}', 1), ('\u{ff46}', 1),
+                                             ('\u{0661}', 1), ('\u{212a}', 1), ('\u{017f}', 1), ('\u{00df}', 2), ('\u{0130}', 3), ('\u{2160}', 1)];
+        for n in [3usize, 4, 5, 7, 8] {
+            let w = hex_width(n);
+            let mut ops = Vec::new();
+            for (c, mapped) in specials {
+                let cb = c.len_utf8();
+                for target in [cb, 1usize, mapped] {
+                    // c counts as `target` positions; the rest are valid digits
+                    if target > w {
+                        continue;
+                    }
+                    for at_end in [false, true] {
+                        let digits = valid_hex(n, &mut r);
+                        let rest: String = digits[..w - target].iter().map(|&b| b as char).collect();
+                        let sv = if at_end { format!("{}{}", rest, c) } else { format!("{}{}", c, rest) };
+                        ops.push(from_hex(0, n, sv.as_bytes()));
+                    }
+                }
+            }
+            eps.push(Episode { n, tys: tys_for(n), ops });
+        }
+    }
     eps
 }
 
@@ -1925,6 +1952,32 @@ pub fn gen_canon(thorough: bool, seed: u64, c05: bool) -> Vec<Episode> {
                     e.tys = "lut"; // the kernel is shared: most of these on one type only
                 }
                 eps.push(e);
+            }
+        }
+    }
+    // functions invariant under rotating the variables but not totally symmetric (ring sums / ring ORs of a local
+    // pattern): whatever symmetry shortcut a walk takes, the representative must still be the orbit minimum
+    if !c05 {
+        for n in 4..=8usize {
+            let pat = |m: usize, i: usize| -> bool { (m >> i) & 1 == 1 && (m >> ((i + 1) % n)) & 1 == 1 && (m >> ((i + 3) % n)) & 1 == 0 };
+            let rings = [on_from_fn(n, |m| (0..n).filter(|&i| pat(m, i)).count() % 2 == 1), on_from_fn(n, |m| (0..n).any(|i| pat(m, i))),
+                         on_from_fn(n, |m| (0..n).any(|i| (m >> i) & 1 == 1 && (m >> ((i + 2) % n)) & 1 == 0))];
+            for (k, f) in rings.iter().enumerate() {
+                if n <= 7 {
+                    eps.push(canon_episode(n, f, &["p"], false, false));
+                }
+                for kind in ["p", "npn"] {
+                    let mut perm: Vec<usize> = (0..n).collect();
+                    perm.swap(0, 2);
+                    if k == 1 {
+                        perm.swap(1, n - 1);
+                    }
+                    let mut e = Episode { n, tys: tys_for(n), ops: vec![load(0, n, f), json!({"op": "canon_inv", "kind": kind, "a": 0, "tperm": perm, "tmask": Vec::<usize>::new()})] };
+                    if n == 8 {
+                        e.tys = "lut";
+                    }
+                    eps.push(e);
+                }
             }
         }
     }
